@@ -12,6 +12,8 @@ MRQ = 'dashlive/server/requesthandler/media_requests.py'
 
 def build(key, variant, i):
     qual = key.split(':')[1]
+    if qual.endswith('calculate_injected_error_segments'):
+        return build_injected(variant, i)
     inc = extract_method(BASE, 'RequestHandlerBase', 'increment_error_counter', {'flask': flask})
     rst = extract_method(BASE, 'RequestHandlerBase', 'reset_error_counter', {'flask': flask})
     me = NS()
@@ -54,3 +56,45 @@ def build(key, variant, i):
         r = run(lambda: chk(me, variant, int(i['seg_num']), options))
         return None if r is None else NS(status=r.status_code)
     return {'env': env, 'old_env': dict(env), 'call': call}
+
+
+def _injected(errors, now, ast_, depth, ts, sd):
+    import datetime
+    import urllib.parse
+    from dashlive.utils.date_time import scale_timedelta
+    fn = extract_method('dashlive/server/requesthandler/manifest_context.py', 'ManifestContext', 'calculate_injected_error_segments',
+                        {'urllib': urllib, 'scale_timedelta': scale_timedelta, 'Representation': object})
+    return urllib.parse.unquote_plus(fn(errors, now, ast_, depth, NS(timescale=ts, segment_duration=sd)))
+
+
+def build_injected(variant, i):
+    import datetime
+    EPOCH = datetime.datetime(1970, 1, 1, tzinfo=datetime.timezone.utc)
+    g = lambda k: int(i[k])
+    us = datetime.timedelta(microseconds=1)
+    ast_ = EPOCH + (86400 * 10**6 * g('ast_day') + 10**6 * g('ast_sec') + g('ast_usec')) * us
+    pos_t = EPOCH + (86400 * 10**6 * g('pos_day') + 10**6 * g('pos_sec') + g('pos_usec')) * us
+    now = EPOCH + g('now_us') * us
+    code = None if variant.endswith('-nocode') else g('code')
+    pos = g('pos') if variant.startswith('number') else pos_t
+    env = {k: g(k) for k in ('code', 'pos', 'ast_day', 'ast_sec', 'ast_usec', 'pos_day', 'pos_sec', 'pos_usec', 'now_us', 'depth', 'ts', 'sd')}
+    env['__facts__'] = 0 <= g('ast_sec') < 86400 and 0 <= g('ast_usec') < 10**6 and 0 <= g('pos_sec') < 86400 and 0 <= g('pos_usec') < 10**6
+    env['drops_are'] = lambda x, *parts: x == ''.join(str(p) for p in parts)
+    env['empty_list'] = lambda x: x == ''
+    return {'env': env, 'call': lambda: _injected([(code, pos)], now, ast_, g('depth'), g('ts'), g('sd'))}
+
+
+def finding_error_time_ignores_start_number(i):
+    """C16: an error addressed by wall-clock time is translated to floor((t - AST) * timescale / segment_duration); the
+    segment whose interval contains t has number start_number + that value (LiveMedia maps number n to time
+    (n - start_number) * segment_duration), so with start_number 1 the error fires for the segment before."""
+    import datetime
+    ts, sd, sn = int(i['ts']), int(i['sd']), int(i['sn'])
+    ast_ = datetime.datetime(2024, 3, 1, 10, 0, 0, tzinfo=datetime.timezone.utc)
+    tm = ast_ + datetime.timedelta(seconds=int(i['offset_s']))
+    now = tm + datetime.timedelta(seconds=1)
+    text = _injected([(503, tm)], now, ast_, 3600, ts, sd)
+    drop = int(text.split('=')[1])
+    tc = int(i['offset_s']) * ts
+    lo, hi = (drop - sn) * sd, (drop - sn + 1) * sd          # the interval LiveMedia serves for $Number$ = drop
+    return not (lo <= tc < hi), f'time {tm.time()} (tick {tc}) -> "{text}": segment {drop} covers ticks [{lo}, {hi}); the segment containing the time is {sn + tc // sd}'
